@@ -2,6 +2,7 @@ package main
 
 import (
 	"flag"
+	"runtime/pprof"
 	"fmt"
 	"os"
 	"runtime"
@@ -67,7 +68,13 @@ func cmdProve(args []string) {
 	verbose := fs.Bool("v", false, "verbose")
 	all := fs.Bool("all", false, "print every obligation")
 	thorough := fs.Bool("thorough", false, "confirm with a second solver")
+	prof := fs.String("cpuprofile", "", "write cpu profile")
 	fs.Parse(args)
+	if *prof != "" {
+		f, _ := os.Create(*prof)
+		pprof.StartCPUProfile(f)
+		defer pprof.StopCPUProfile()
+	}
 	eng, err := LoadEngine(repoDir(), runtime.NumCPU())
 	if err != nil {
 		fmt.Fprintln(os.Stderr, err)
@@ -117,12 +124,13 @@ func cmdProve(args []string) {
 			bad++
 		}
 	}
+	pprof.StopCPUProfile()
 	if bad > 0 {
+		eng.pool.Close()
 		os.Exit(1)
 	}
 }
 
-func cmdCheck(args []string)    { fmt.Println("not yet") }
 func cmdSelftest(args []string) { fmt.Println("not yet") }
 
 func init() {
